@@ -47,6 +47,14 @@ func c03Envs(r *core.Rand) []map[string]any {
 		b["spare"] = spare
 		b["words"] = append(make([]any, 0, 8), "pear", "Apple", "fig", "apple")
 		b["recs"] = []any{map[string]any{"k": 2, "name": "b"}, map[string]any{"k": 1, "name": "a"}, map[string]any{"name": "c"}}
+		// a long list of records, and a list mixing records with elements that have no properties at all
+		var long []any
+		for j := 0; j < 9; j++ {
+			long = append(long, map[string]any{"k": (j*5 + k) % 9, "name": string(rune('a' + j))})
+		}
+		b["longrecs"] = long
+		b["mixedrecs"] = []any{map[string]any{"k": 2, "name": "b"}, nil, 5, "str", map[string]any{"k": 1, "name": "a"}, map[string]any{"name": "c"}, map[any]any{1: 2}, 2.5}
+		b["scalars"] = []any{7, "x", nil, 1.5, true}
 		b["st"] = &gen.DataStruct{Name: "s", Items: []int{3, 1, 2}, M: map[string]any{"z": 1}}
 		out = append(out, b)
 	}
@@ -62,6 +70,8 @@ var c03Fixed = []string{
 	"{% for i in (1..3) %}{% assign acc = acc | append: i %}{% endfor %}[{{ acc }}]", "{% for x in spare %}{{ x }}{% endfor %}{{ 1 | divided_by: 0 }}never", "{{ spare | sort | join: ',' }}{{ 1 | nosuchfilter }}",
 	"{% assign s = spare | sort %}{{ s | first }}{% assign s = s | reverse %}{{ s | first }}", "{{ st.Name }}{{ st.Items | sort | join: ',' }}{{ st.Items | first }}{{ st.M.z }}", "{% tablerow x in words cols: 2 %}{{ x | upcase }}{% endtablerow %}",
 	"{% for x in spare reversed limit: 2 %}{% for y in words offset: 1 %}{% cycle 'g': 'p', 'q' %}{% endfor %}{% endfor %}", "{% if spare contains 3 %}{% assign spare = nil %}{% endif %}[{{ spare }}]",
+	"{{ longrecs | sort: 'k' | map: 'name' | join: '' }}{{ longrecs | sort: 'name' | map: 'k' | join: '' }}", "{{ mixedrecs | sort: 'k' | join: '|' }}", "{{ scalars | sort: 'k' | join: '|' }}{{ mixedrecs | sort: 'name' | map: 'name' | join: '|' }}",
+	"{{ longrecs | sort_natural: 'name' | map: 'name' | join: '' }}{{ mixedrecs | sort_natural: 'name' | size }}{{ longrecs | map: 'k' | uniq | size }}",
 	"{{ words | join: ',' | split: ',' | sort | last }}{{ words | first | append: '!' }}", "{% case spare.size %}{% when 4 %}{% assign four = true %}{% endcase %}{{ four }}{% unless four %}U{% endunless %}",
 }
 
